@@ -142,6 +142,23 @@ PROPS = {
         "components": {"real": ["core/sync/adjustments Pll", "base/timemath"], "stub": dict(STUBS_COMMON)},
         "assumptions": ["'start of the current clock epoch' is the first update observed in that epoch", "slew bound checked as |offset| <= 500e-6 x ceil(seconds since the previous update) + 1 ns"],
     },
+    "C20": {
+        "level": "exploration",
+        "budget": {"quick": 80, "thorough": 900},
+        "runs": {"quick": 5000, "thorough": 400000},
+        "rule": "one run = 1..6 measurement attempts of the real IPClient with NTS (wired by the repository's configureIPClientNTS; real ntske.Fetcher, dialTLS, ReadData, ExportKeys) on the simulated "
+                "TCP transport with tape-chosen segmentation; each key exchange is served either by the real handleKeyExchangeTLS (1/3) or by a scripted TLS 1.3 peer whose ALPN (ntske/1, none, other) "
+                "and record sequence are generated: next-protocol, AEAD (15 / other / absent), server and port records, 0..8 cookies of 0..104 bytes, error (codes 0,1,2,3,0x8000,0xffff), warning and "
+                "unknown (critical or not) records inserted anywhere, shuffled order, missing end-of-message, records after end-of-message, message written in one or many TLS records, connection cut "
+                "(FIN or reset) after 0..1500 bytes; non-trivial = at least one key exchange connection; distinct = distinct event-log hash",
+        "required_probes": ["exchange-succeeded", "exchange-failed", "keys-agree", "real-keys-agree", "destination-checked", "named-destination"],
+        "components": {"real": ["net/ntske Fetcher, dialTLS, exchangeDataTLS, ReadData, ExportKeys", "core/server handleKeyExchangeTLS, newNTSKEMsg", "core/client IPClient (NTS request path)",
+                                "timeservice.go configureIPClientNTS", "crypto/tls (client and server handshakes, exporters)", "net/nts NewRequestPacket/EncodePacket"],
+                       "stub": dict(STUBS_COMMON, **{"TCP": "simnet streams (in-order bytes, segmentation, FIN/reset at a byte offset)", "scripted peer": "tls.Server with generated record stream"}),
+                       "not_run": ["NTS-KE over QUIC/SCION (quic-go is not simulated); ReadData/ExportKeys/exchangeKeys checks are shared code"]},
+        "assumptions": ["a warning record, a connection cut and cookies shorter than 8 bytes make the statement's verdict ambiguous: either outcome is accepted for those scripts",
+                        "success of a key exchange is observed through the NTS request the client sends afterwards and the fetcher's cached data (export shim)"],
+    },
 }
 
 NOT_APPLICABLE = {
@@ -152,7 +169,7 @@ NOT_APPLICABLE = {
 
 # Properties that the design claims but whose world is not built yet (kept current).
 NOT_YET = {p: "designed (DESIGN.md section 3) but the simulated world is not built yet; not claimed until its check runs"
-           for p in ["C05", "C08", "C10", "C11", "C13", "C14", "C15", "C20"]}
+           for p in ["C05", "C08", "C10", "C11", "C13", "C14", "C15"]}
 
 PROPS["C01"].update(
     level_text="seeded exploration of multi-round histories of the real synchronization loop with scripted sources (values over the whole int64 range, failures, late answers, sources that never answer) and admissible/inadmissible configurations; per-round invariants: exactly one correction, magnitude bounds from the statement, exact value when every source answered in time, correction no later than the round's timeout; start-up refusal of inadmissible settings. Evidence, not proof.",
@@ -182,6 +199,10 @@ PROPS["C09"].update(
     level_text="complete enumeration of the first-byte x length-class x trailer-class space against the running listeners plus seeded sampling of the rest (remaining header bytes, lengths, ports, duplicates); reply count, addressing, reply header and anti-reflection are decided by the simulated network's accounting. Enumeration is exhaustive for the stated sub-space only; everything else is evidence, not proof.",
     level_note="trusts the simulator's causality tracking of replies; listener hangs are detected by the wall-clock watchdog and reported as violations (stall) only if they reproduce",
     technique="deterministic simulation: enumerated + seeded crafted-datagram injection at real listeners, wire accounting oracle")
+PROPS["C20"].update(
+    level_text="seeded exploration of key-exchange histories between the real NTS-KE client and a real or scripted TLS peer on a simulated TCP transport: success only for offers the statement allows, success for every well-formed offer, keys equal to the peer's RFC 8915 exporter values (or, for the real server, to the keys sealed in its cookies), pool equal to the issued cookies in order, destination of the following request, and nothing left behind by a failed exchange. Evidence, not proof.",
+    level_note="TLS transport only (QUIC not simulated); crypto/rand pinned per run; scripted peer encodes records with its own encoder",
+    technique="deterministic simulation with fault injection: scripted TLS peer, stream segmentation and cuts, history oracle over attempts")
 PROPS["C12"].update(
     level_text="seeded exploration of call histories and statement-level interleavings of the real Provider under a virtual clock over weeks of virtual time; per-call invariants from the statement plus a porcupine linearizability check against a permissive model. Evidence, not proof.",
     level_note="trusts testing/synctest's fake clock, the simulator-aware mutex substituted for sync.Mutex, and that interleavings finer than statements do not matter; constants (24h, 3d, 2d) are taken from the property statement",
